@@ -29,7 +29,10 @@ LEGAL = {'px': (1,), 'py': (1,), 'pz': (1,), 'p': (4, 9), 'so': (1,), 's': (4,),
          'ell': (7,), 'wed': (12,), 'arb': (30,)}
 
 FAULTS = ['tr-m', 'trcl-m', 'fill-m', 'lat-noopt', 'lat-dim', 'surf-count', 'macro-count', 'mnemonic', 'facet',
-          'fill-short', 'fill-long', 'imp-len', 'mat-sign', 'lattice-arg']
+          'fill-short', 'fill-long', 'imp-len', 'mat-sign', 'lattice-arg', 'arb-vertex']
+# fault classes the property does not name: only 'never a normally finished conversion' is demanded of them (a bare
+# exception is accepted)
+LENIENT = {'arb-vertex'}
 
 
 def plan(tier):
@@ -56,6 +59,8 @@ def run_case(stream, seed, ctx, params):
     elif fault in ('trcl-m', 'fill-m'):
         d = U.build_universe_deck(rng, depth=1, macro_p=0.0, tr_p=0.0, fill_tr_p=1.0, trcl_p=1.0,
                                   rot_classes=['perm', 'pyth'])
+    elif fault == 'arb-vertex':
+        d = G.build_flat_deck(rng, macro_p=1.0, nsurf=rng.randint(1, 2), mkinds=['arb5'])
     elif fault in ('macro-count', 'facet'):
         d = G.build_flat_deck(rng, macro_p=1.0, nsurf=rng.randint(1, 3))
     else:
@@ -202,6 +207,16 @@ def run_case(stream, seed, ctx, params):
                 c.mat, c.rho = 1, '-1.0'
                 break
         text = D.render_deck(d, D.Layout(rng))
+    elif fault == 'arb-vertex':
+        # a facet descriptor of a six-vertex ARB names vertex 8, which the card does not define (slots 7 and 8 are padding)
+        sf = rng.choice([x for x in d.surfs if x.mn == 'arb'])
+        k = rng.choice([i for i in range(24, 30) if sf.ps[i] != 0.0])
+        digs = list(str(int(sf.ps[k])))
+        j = rng.randrange(min(3, len(digs)))
+        digs[j] = '8'
+        sf.ps[k] = float(''.join(digs))
+        detail = 'facet %d digit %d' % (k - 23, j + 1)
+        text = D.render_deck(d, D.Layout(rng))
     elif fault == 'lattice-arg':
         bad = rng.choice(['malformed', 'three,-1:5', '100,', '100,0:4,0:4,0:4,0:4', '100,0:6.022e23', '100,1:2:3', '100,a:b'])
         args += ['--lattice', bad]
@@ -215,6 +230,8 @@ def run_case(stream, seed, ctx, params):
         fails.append(fail('violation', 'fault %s (%s) was not detected: the conversion finished normally' % (fault, detail),
                           {'stream': 'fault', 'fault': fault, 'outcome': 'accepted', 'detail': detail_class(fault, detail)}, replay))
         dist['outcome:accepted'] = 1
+    elif fault in LENIENT:
+        dist['outcome:' + str(res.exc_type)] = 1
     elif res.exc_type not in DIAGNOSTIC or is_degenerate(res):
         fails.append(fail('violation', 'fault %s (%s) stops the run with a bare %s: %s — the problem is not named'
                           % (fault, detail, res.exc_type, (res.exc_msg or '')[:120]),
@@ -239,4 +256,6 @@ def detail_class(fault, detail):
 def replay(payload, ctx):
     p = payload.get('payload') or {}
     res = impl.convert(p['deck'], p.get('args') or [])
-    return {'exception': res.exc_type, 'message': res.exc_msg, 'violation': res.ok or res.exc_type not in DIAGNOSTIC}
+    lenient = p.get('fault') in LENIENT
+    return {'exception': res.exc_type, 'message': res.exc_msg,
+            'violation': res.ok or (not lenient and res.exc_type not in DIAGNOSTIC)}
